@@ -63,6 +63,36 @@ def imports (fields : List String) : List String :=
         (defs.toArray.qsort (· < ·)).toList
   | _ => ["X bad-fields"]
 
+/-- `libs`: fields = mode, `F<path>=<content>` library files relative to the program directory,
+`R<name/elements>=<text>` registered sources, `>` submissions -/
+def libs (fields : List String) : List String :=
+  match fields with
+  | mode :: rest =>
+    let step := fun (acc : List String × Interp.State) (f : String) =>
+      let (out, st) := acc
+      let cs := unescape f
+      match cs with
+      | 'F' :: body =>
+        let path := String.ofList (body.takeWhile (· ≠ '='))
+        let content := String.ofList ((body.dropWhile (· ≠ '=')).drop 1)
+        let entry : Interp.FileEntry :=
+          if content == "\x00UNREADABLE" || content == "\x00DIR" then .unreadable else .text content
+        (out, { st with files := (path, entry) :: st.files })
+      | 'R' :: body =>
+        let name := String.ofList (body.takeWhile (· ≠ '='))
+        let text := String.ofList ((body.dropWhile (· ≠ '=')).drop 1)
+        let lib : LibName := (name.splitOn "/").map LibElem.ident
+        match Interp.factoryOfText lib text with
+        | .ok fac => (out, { st with factories := Interp.libInsert st.factories lib fac,
+                                     instances := st.instances.filter (fun p => p.1 ≠ lib) })
+        | .error e => (out ++ ["R" ++ errStr e], st)
+      | '>' :: form =>
+        let (r, st) := Interp.evalText evalFuel st form
+        (out ++ [showResult st r], st)
+      | _ => (out, st)
+    (rest.foldl step ([], initState mode)).1
+  | [] => ["X bad-fields"]
+
 def hexBytes (s : String) : ByteArray :=
   let cs := s.toList
   let rec go : List Char → ByteArray → ByteArray
